@@ -8,6 +8,9 @@ void harness(void) {
   __CPROVER_assume(!v0.dash_dot && !old.base.has_opaque_path);
   /* parser state: authority being built, host not yet written */
   __CPROVER_assume(v0.host.n == 0 && !v0.has_port && !v0.has_password);
+  /* ... and nothing after it yet: the only call sites are in the authority state, where the URL holds its scheme and what the
+   * authority state itself has appended */
+  __CPROVER_assume(u.components.pathname_start == u.buffer.n && !v0.has_search && !v0.has_hash);
   __CPROVER_assume(u.buffer.n + input.n + 3 <= STR_CAP);
 
   agg_append_base_username(&u, input);
